@@ -4,6 +4,7 @@ import (
 	"time"
 
 	"github.com/plgd-dev/go-coap/v3/pkg/sync"
+	"github.com/plgd-dev/go-coap/v3/pkg/verifhook"
 	"go.uber.org/atomic"
 )
 
@@ -50,6 +51,7 @@ func NewCache[K comparable, D any]() *Cache[K, D] {
 
 func (c *Cache[K, D]) LoadOrStore(key K, e *Element[D]) (actual *Element[D], loaded bool) {
 	now := time.Now()
+	verifhook.Yield("cache.LoadOrStore.afterNow", 0)
 	c.ReplaceWithFunc(key, func(oldValue *Element[D], oldLoaded bool) (newValue *Element[D], deleteValue bool) {
 		if oldLoaded {
 			if !oldValue.IsExpired(now) {
@@ -68,6 +70,7 @@ func (c *Cache[K, D]) Load(key K) (actual *Element[D]) {
 	if !loaded {
 		return nil
 	}
+	verifhook.Yield("cache.Load.beforeExpiryTest", 0)
 	if actual.IsExpired(time.Now()) {
 		return nil
 	}
@@ -77,6 +80,7 @@ func (c *Cache[K, D]) Load(key K) (actual *Element[D]) {
 func (c *Cache[K, D]) CheckExpirations(now time.Time) {
 	c.Range(func(key K, value *Element[D]) bool {
 		if value.IsExpired(now) {
+			verifhook.Yield("cache.sweep.beforeDelete", 0)
 			c.Delete(key)
 			value.onExpire(value.Data())
 		}
